@@ -136,7 +136,7 @@ func uint16PtrDecode(dec *Decoder, t reflect.Type, p unsafe.Pointer) {
 }
 
 func uint32PtrDecode(dec *Decoder, t reflect.Type, p unsafe.Pointer) {
-	dec.decodeUint32(t, dec.NextByte(), (*uint32)(p))
+	dec.decodeUint32Ptr(t, dec.NextByte(), (**uint32)(p))
 }
 
 func uint64PtrDecode(dec *Decoder, t reflect.Type, p unsafe.Pointer) {
